@@ -219,6 +219,7 @@ type link struct {
 	server  *ss2022.UDPServer
 	table   map[uint64]zerocopy.ServerUnpacker
 	natUnp  zerocopy.ServerUnpacker // none, socks5: per client address (one client here)
+	packers map[uint64]zerocopy.ServerPacker
 	spacker zerocopy.ServerPacker
 }
 
@@ -422,8 +423,15 @@ func (l *link) serverUnpack(b []byte, start, n int, target conn.Addr) (addr conn
 		}
 		if !ok {
 			l.table[csid] = u
-			l.spacker, err = u.NewPacker()
+			if l.packers == nil {
+				l.packers = map[uint64]zerocopy.ServerPacker{}
+			}
+			if l.packers[csid], err = u.NewPacker(); err != nil {
+				return
+			}
 		}
+		// replies go to the session the last packet came from
+		l.spacker = l.packers[csid]
 		return
 	case l.proto == "direct":
 		var u zerocopy.ServerUnpacker
